@@ -124,13 +124,20 @@ func (w *c12World) resp(id int) {
 		w.t.Fatal(err)
 	}
 	done := make(chan struct{})
+	var inErr error
 	go func() {
-		_, _ = w.cl.HandleInbound(m.Raw, w.srv)
+		_, inErr = w.cl.HandleInbound(m.Raw, w.srv)
 		close(done)
 	}()
 	synctest.Wait()
 	select {
 	case <-done:
+		if inErr != nil {
+			// "responses with other IDs, duplicates and late arrivals are ignored": an error return is not ignoring - it ends
+			// the read loop of a client started with Listen
+			fmt.Printf("VERIF-VIOLATION C12 Client.HandleInbound returned an error (%v) for a well-formed response with transaction id %d instead of ignoring it (steps so far: %s)\n", inErr, id, strings.Join(w.steps, "; "))
+			w.record(fmt.Sprintf("Result %d ROk %d", 8000000+id, 0)) // shows up as a bogus action
+		}
 	default:
 		fmt.Printf("VERIF-VIOLATION C12 Client.HandleInbound blocked forever on a response with transaction id %d (steps so far: %s)\n", id, strings.Join(w.steps, "; "))
 		w.record(fmt.Sprintf("Result %d ROk %d", 9000000+id, 0)) // HandleInbound is stuck: shows up as a bogus action
